@@ -196,6 +196,68 @@ func init() {
 						}
 					}
 				}
+				// (b3) every special scheme is one: schemes added by WithSpecialSchemes (whatever the length of their names), and
+				// the gopher scheme of the Semantic profile; (b4) the host setters are a route to a special URL's host too
+				if want, ok, decided := expectSpecialHost(d, h); decided && !strings.ContainsAny(h, "/\\?#@:[] \t\n\r") && (i < total/8 || i >= total) {
+					for k, cs := range []struct{ cfg, scheme string }{{"specialAdd", "gopher"}, {"specialAdd", "sc"}, {"specialMany", "a"}} {
+						if i < total && (i+k)%3 != 0 {
+							continue
+						}
+						cfg := cfgFromDesc(cs.cfg)
+						in := cs.scheme + "://" + h + "/"
+						fam := "ipv4-api:" + cs.cfg + ":" + cs.scheme
+						io := c.cmpParse(d, cfg, nil, in, allButVerrs, true, fam, i)
+						cs3 := Case{Kind: "parse", Cfg: cfg.Desc, Input: in, Family: fam, Index: i}
+						if ok != (io.Kind == "U") {
+							c.Report(Finding{Class: "violation", What: fmt.Sprintf("host %q of a URL whose scheme %q the parser was configured to treat as special: implementation %s, the standard %s", h, cs.scheme, io.String(), map[bool]string{true: "accepts it as " + want, false: "rejects it"}[ok]), Case: cs3})
+						} else if ok && io.Fields[fHostname] != want {
+							c.Report(Finding{Class: "violation", What: fmt.Sprintf("host %q of a URL whose scheme %q the parser was configured to treat as special serializes as %q, the standard's result is %q", h, cs.scheme, io.Fields[fHostname], want), Case: cs3})
+						}
+					}
+					// (the profile's own host clean-up trims and collapses dots before the host parser sees the host: hosts it leaves alone)
+					if hd := asciiLower(pctDecode(h)); ok && !strings.HasPrefix(hd, ".") && !strings.HasSuffix(hd, ".") && !strings.Contains(hd, "..") && !strings.HasPrefix(h, ".") && !strings.HasSuffix(h, ".") && !strings.Contains(h, "..") &&
+						!strings.ContainsAny(hd, forbiddenDomain) && i%2 == 0 {
+						sem := predefinedProfiles[3]
+						in := "gopher://" + h + "/"
+						io := c.cmpProf(d, sem, nil, in, allButVerrs, "ipv4-api:Semantic:gopher", i)
+						if io.Kind != "U" || io.Fields[fHostname] != want {
+							c.Report(Finding{Class: "violation", What: fmt.Sprintf("host %q of a gopher URL under the Semantic profile (gopher is special there): %s, the standard's host is %q", h, io.String(), want),
+								Case: Case{Kind: "cparse", Cfg: sem.Desc, Input: in, Family: "ipv4-api:Semantic:gopher", Index: i}})
+						}
+					}
+					if i%2 == 1 {
+						for w := 3; w <= 4; w++ {
+							u, err := defaultCfg.Parser.Parse("http://x/")
+							if err != nil {
+								break
+							}
+							applySetter(u, w, h)
+							exp := "x"
+							if ok {
+								exp = want
+							}
+							if got := u.Hostname(); got != exp {
+								c.Report(Finding{Class: "violation", What: fmt.Sprintf("%s(%q) on http://x/ leaves the host %q, the standard's host setter gives %q", setterNames[w], h, got, exp),
+									Case: Case{Kind: "hist", Cfg: defaultCfg.Desc, Input: "http://x/", Ops: []string{Op{K: "s", W: w, A: h}.String()}, Family: "ipv4-setters", Index: i}})
+							}
+						}
+						// and the protocol setter never turns an opaque host into an address (nor the URL into a special one)
+						if !strings.ContainsAny(h, "\x00<>^|%") && isASCII(h) && h != "" {
+							for _, proto := range []string{"http", "HTTP", "Ws:", "fTp", "FILE"} {
+								u, err := defaultCfg.Parser.Parse("sc://" + h + "/x")
+								if err != nil {
+									break
+								}
+								u.SetProtocol(proto)
+								if u.Protocol() != "sc:" || u.Hostname() != c0Encode(h) {
+									c.Report(Finding{Class: "violation", What: fmt.Sprintf("SetProtocol(%q) on sc://%s/x: protocol %q host %q (a non-special URL never becomes special, its opaque host is never reinterpreted)", proto, h, u.Protocol(), u.Hostname()),
+										Case: Case{Kind: "hist", Cfg: defaultCfg.Desc, Input: "sc://" + h + "/x", Ops: []string{Op{K: "s", W: 0, A: proto}.String()}, Family: "ipv4-setters", Index: i}})
+									break
+								}
+							}
+						}
+					}
+				}
 				if !strings.ContainsAny(h, "\x00/\\?#@:[] \t\n\r<>^|") && isASCII(h) && h != "" {
 					in := "sc://" + h + "/x"
 					io := c.cmpParse(d, defaultCfg, nil, in, allButVerrs, true, "ipv4-opaque", i)
@@ -342,6 +404,18 @@ func init() {
 						io := c.cmpParse(d, defaultCfg, nil, in, allButVerrs, true, "ipv6-api", i)
 						if (io.Kind == "U") != (want != "fail") || io.Kind == "U" && io.Fields[fHostname] != "["+unhx(strings.Fields(want)[1])+"]" {
 							c.Report(Finding{Class: "violation", What: fmt.Sprintf("%s: implementation %s, the standard: %s", in, io.String(), descSpec(want)), Case: Case{Kind: "parse", Input: in, Family: "ipv6-api", Index: i}})
+						}
+					}
+					// ... and through every predefined profile and repeated decoding: canonicalization never touches an address
+					// (hosts without consecutive dots: GoogleSafeBrowsing and Semantic collapse those before the host parser sees the host)
+					if (i%4 == 0 || i >= total+totalBr+nr) && !strings.Contains(host, "..") {
+						for k, pr := range []*Prof{predefinedProfiles[2], predefinedProfiles[3], profFromDesc("repeated"), predefinedProfiles[0]} {
+							sc := []string{"https", "sc", "gopher"}[(i/4+k)%3]
+							in := sc + "://" + host + "/p"
+							io := c.cmpProf(d, pr, nil, in, allButVerrs, "ipv6-profiles", i)
+							if (io.Kind == "U") != (want != "fail") || io.Kind == "U" && io.Fields[fHostname] != "["+unhx(strings.Fields(want)[1])+"]" {
+								c.Report(Finding{Class: "violation", What: fmt.Sprintf("%s under %s: implementation %s, the standard: %s", in, pr.Desc, io.String(), descSpec(want)), Case: Case{Kind: "cparse", Cfg: pr.Desc, Input: in, Family: "ipv6-profiles", Index: i}})
+							}
 						}
 					}
 				}
